@@ -136,7 +136,14 @@ def rule_ready_set_semantics(ctx):
                     for c in sem_calls(b):
                         if c.name.rsplit("::", 1)[-1] in ("dedup", "dedup_by_key", "dedup_by") and \
                                 b.dominates(c.bb, bb) and (deep_locals(b, c.args[0])[0] & locs):
-                            dedup = True
+                            # Vec::dedup only removes *consecutive* duplicates: it yields the distinct count only on a
+                            # sorted vector
+                            tgt = deep_locals(b, c.args[0])[0]
+                            if any(s_.name.rsplit("::", 1)[-1] in ("sort", "sort_unstable", "sort_by", "sort_by_key",
+                                                                     "sort_unstable_by", "sort_unstable_by_key", "sort_by_cached_key")
+                                   and b.dominates(s_.bb, c.bb) and (deep_locals(b, s_.args[0])[0] & tgt)
+                                   for s_ in sem_calls(b)):
+                                dedup = True
                 ctx.ob("C11.2", "COUNT is compared with the number of *distinct* dependencies", dedup,
                        "`%s` compares the SQL COUNT (distinct rows `WHERE id IN (..)`) with %s of the raw "
                        "dependency list: a repeated entry makes the counts differ for ever and the item stays "
